@@ -235,6 +235,14 @@ func (SignatureProofScheme) Finalize(
 		// represented in the current proof.
 		p.SignatureBitSet(&projectedBits)
 
+		if projectedBits.Count() == 0 {
+			// A proof nobody signed has nothing to aggregate.
+			// Writing it out would produce a key ID with k=0,
+			// which ValidateFinalizedProof must reject,
+			// making the entire finalized proof unverifiable.
+			continue
+		}
+
 		reducedKeys, projections = createKeyProjection(pubKeys, &presentVoteBits)
 
 		// Create bitset in reduced key set, reusing the reducedBits bit set.
